@@ -7,7 +7,7 @@ TAGS = ['status', 'cancel', 'taskret', 'tfin', 'caught', 'spawn', 'cleanup', 'st
 RULE = ('(a) scope trees: nested (until-)scopes (depth <= 3, <= 3 children each, volatile or delayed), bodies and children that '
         'sleep/raise (regular and privileged types)/return, cancels from inside and from a separate activity after t time units '
         'and k postponements, deadlines and flags on a coarse time grid, everything wrapped in handlers that log what they catch; '
-        '(b) random valid whole-API programs (no usage errors); (c) one task cancelled repeatedly with different tokens / closed and then cancelled, before its first turn or later, awaited by several activities; (d) payloads that swallow their own cancellation (`except CancelTask`) or clean up with awaits, cancelled 1-3 times at different times; (e) awaiters that start waiting for a task before its first turn, which is then cancelled before it starts; (f) tasks closed by their scope inside `try/finally` whose clean-up probes the status and may raise; non-trivial = a task was cancelled or its status probed')
+        '(b) random valid whole-API programs (no usage errors); (c) one task cancelled repeatedly with different tokens / closed and then cancelled, before its first turn or later, awaited by several activities; (d) payloads that swallow their own cancellation (`except CancelTask`) or clean up with awaits, cancelled 1-3 times at different times; (e) awaiters that start waiting for a task before its first turn, which is then cancelled before it starts; (h) a task cancelled while suspended inside (re-entered) lock blocks; (g) a task cancelled while it awaits a sibling, the sibling observed; (f) tasks closed by their scope inside `try/finally` whose clean-up probes the status and may raise; non-trivial = a task was cancelled or its status probed')
 
 
 def nontrivial(impl):
@@ -157,12 +157,59 @@ def refine(msg, impl, model, sc):
             'as_modelled': model is not None and model['events'] == impl['events']}
 
 
-SOURCES = [scopesuite.scope_tree, scopesuite.valid_scenario, scopesuite.cancel_cleanup, repeated_cancel, suppressed_cancel, early_awaiter, closed_cleanup]
+def await_sibling(rng):
+    """a task waits for a sibling (`await task`) and is cancelled while it waits; the sibling, its status and its other
+    awaiters (earlier and later ones) are observed: cancelling one task must not touch the other"""
+    from fractions import Fraction as F
+    tok = rng.sample(range(1, 10), 2)
+    d = rng.choice([2, 3, 5])
+    sib = ['prog', ['log', 1], ['sleep', d], ['log', 2], ['ret', 7]]
+    waiter = ['prog', ['sleep', rng.choice([0, F(1, 2), 1])],
+              ['try', ['body', ['awaittask', 0], ['log', 3]], ['handler', ['pats', 'taskCancelled', 'taskClosed', 'anyException'], ['body', ['log', 4]]]]]
+    if rng.random() < 0.4:
+        waiter = ['prog', ['sleep', rng.choice([0, 1])], ['awaittask', 0], ['log', 3]]
+    body = [['spawn', 0, 0, None, None, False, sib], ['spawn', 0, 1, None, None, False, waiter],
+            ['sleep', rng.choice([1, F(3, 2), 2])]] + [['sleep', 0]] * rng.randint(0, 2) + [['cancel', 1, tok[0]], ['status', 0], ['status', 1]]
+    if rng.random() < 0.3:
+        body += [['sleep', rng.choice([0, F(1, 2)])], ['cancel', 1, tok[1]]]
+    main = ['prog', ['try', ['body', ['scope', 0, ['none']] + body], ['handler', ['pats', 'concurrent', 'anyException'], ['body', ['log', 20]]]],
+            ['status', 0], ['status', 1]]
+    watcher = lambda i, t: ['prog', ['sleep', t], ['try', ['body', ['awaittask', 0], ['log', 30 + i]],
+                                                     ['handler', ['pats', 'taskCancelled', 'taskClosed', 'concurrent', 'anyException'], ['body', ['log', 40 + i]]]],
+                            ['status', 0]]
+    roots = [main] + [watcher(i, t) for i, t in enumerate(rng.sample([F(1, 2), 1, 2, 4, 7], rng.randint(1, 2)))]
+    return ['scenario', ['debug', 1], ['start', 0], ['flags', 1], ['locks', 0], ['roots'] + roots]
+
+
+def cancel_in_lock(rng):
+    """the task is suspended inside `async with lock` blocks - re-entered 1-3 times - when it is cancelled (or its scope fails):
+    a context manager the cancellation passes through on its way out must not swallow it"""
+    from fractions import Fraction as F
+    tok = rng.sample(range(1, 10), 2)
+    inner = [['log', 2], ['sleep', rng.choice([3, 5])], ['log', 3]]
+    for _ in range(rng.randint(1, 3)):
+        inner = [['lock', 0] + inner + [['log', 4]]]
+    task = ['prog', ['log', 1]] + inner + [['sleep', 1], ['log', 5], ['ret', 7]]
+    body = [['spawn', 0, 0, None, None, False, task], ['sleep', rng.choice([1, 2])]] + [['sleep', 0]] * rng.randint(0, 1)
+    if rng.random() < 0.7:
+        body += [['cancel', 0, tok[0]], ['status', 0]]
+    else:
+        body += [['raise', 0]]
+    main = ['prog', ['try', ['body', ['scope', 0, ['none']] + body], ['handler', ['pats', 'concurrent', 'anyException'], ['body', ['log', 20]]]],
+            ['status', 0]]
+    watcher = lambda i, t: ['prog', ['sleep', t], ['try', ['body', ['awaittask', 0], ['log', 30 + i]],
+                                                     ['handler', ['pats', 'taskCancelled', 'taskClosed', 'concurrent', 'anyException'], ['body', ['log', 40 + i]]]],
+                            ['status', 0]]
+    roots = [main] + [watcher(i, t) for i, t in enumerate(rng.sample([F(1, 2), 1, 4, 9], rng.randint(1, 2)))]
+    return ['scenario', ['debug', 1], ['start', 0], ['flags', 1], ['locks', 1], ['roots'] + roots]
+
+
+SOURCES = [scopesuite.scope_tree, scopesuite.valid_scenario, scopesuite.cancel_cleanup, repeated_cancel, suppressed_cancel, early_awaiter, closed_cleanup, await_sibling, cancel_in_lock]
 
 
 def run(tier, seed, drv):
     return msuite.standard_run(PID, 'C06', TAGS, tier, seed, drv, SOURCES, nontrivial=nontrivial, rule=RULE,
-                               n_quick=200, n_thorough=6000, refine=refine)
+                               n_quick=200, n_thorough=6000, refine=refine, optimized=100 if tier == 'quick' else 1000)
 
 
 def replay(data, drv):
